@@ -7,6 +7,7 @@ dir=${1:-/verif/benign}; shift
 props="$*"
 one() {
   f="$1"; b=$(basename "$f" .diff); id=${b%%-*}
+  if [ -n "$GSA_DEADLINE" ] && [ "$(date +%s)" -ge "$GSA_DEADLINE" ]; then echo "NOTRUN   $b (self-test time budget used up)"; return; fi
   out=$(tools/try_patch.sh "$f" "$id" 2>&1); rc=$?
   if [ $rc -eq 0 ]; then echo "SILENT   $b"
   elif [ $rc -eq 1 ]; then echo "ALARM    $b: $(echo "$out" | grep -E '^  (VIOLATED|UNDECIDED)' | head -3 | tr '\n' ' ' | cut -c1-400)"
